@@ -79,6 +79,12 @@ FileFormat.vos FileFormat.vok FileFormat.required_vos: FileFormat.v Codec.vos
 FileFormatFacts.vo FileFormatFacts.glob FileFormatFacts.v.beautified FileFormatFacts.required_vo: FileFormatFacts.v Bytes.vo BytesFacts.vo Segment.vo Codec.vo CodecFacts.vo FileFormat.vo
 FileFormatFacts.vio: FileFormatFacts.v Bytes.vio BytesFacts.vio Segment.vio Codec.vio CodecFacts.vio FileFormat.vio
 FileFormatFacts.vos FileFormatFacts.vok FileFormatFacts.required_vos: FileFormatFacts.v Bytes.vos BytesFacts.vos Segment.vos Codec.vos CodecFacts.vos FileFormat.vos
+BatchBuf.vo BatchBuf.glob BatchBuf.v.beautified BatchBuf.required_vo: BatchBuf.v Bytes.vo Segment.vo Codec.vo FileFormat.vo Index.vo
+BatchBuf.vio: BatchBuf.v Bytes.vio Segment.vio Codec.vio FileFormat.vio Index.vio
+BatchBuf.vos BatchBuf.vok BatchBuf.required_vos: BatchBuf.v Bytes.vos Segment.vos Codec.vos FileFormat.vos Index.vos
+BatchBufFacts.vo BatchBufFacts.glob BatchBufFacts.v.beautified BatchBufFacts.required_vo: BatchBufFacts.v Bytes.vo BytesFacts.vo Segment.vo SegmentFacts.vo Codec.vo CodecFacts.vo FileFormat.vo FileFormatFacts.vo BatchBuf.vo Index.vo IndexFacts.vo
+BatchBufFacts.vio: BatchBufFacts.v Bytes.vio BytesFacts.vio Segment.vio SegmentFacts.vio Codec.vio CodecFacts.vio FileFormat.vio FileFormatFacts.vio BatchBuf.vio Index.vio IndexFacts.vio
+BatchBufFacts.vos BatchBufFacts.vok BatchBufFacts.required_vos: BatchBufFacts.v Bytes.vos BytesFacts.vos Segment.vos SegmentFacts.vos Codec.vos CodecFacts.vos FileFormat.vos FileFormatFacts.vos BatchBuf.vos Index.vos IndexFacts.vos
 Locks.vo Locks.glob Locks.v.beautified Locks.required_vo: Locks.v 
 Locks.vio: Locks.v 
 Locks.vos Locks.vok Locks.required_vos: Locks.v 
@@ -163,6 +169,12 @@ Crash.vos Crash.vok Crash.required_vos: Crash.v
 CrashFacts.vo CrashFacts.glob CrashFacts.v.beautified CrashFacts.required_vo: CrashFacts.v Crash.vo
 CrashFacts.vio: CrashFacts.v Crash.vio
 CrashFacts.vos CrashFacts.vok CrashFacts.required_vos: CrashFacts.v Crash.vos
+CrashFiles.vo CrashFiles.glob CrashFiles.v.beautified CrashFiles.required_vo: CrashFiles.v 
+CrashFiles.vio: CrashFiles.v 
+CrashFiles.vos CrashFiles.vok CrashFiles.required_vos: CrashFiles.v 
+CrashFilesFacts.vo CrashFilesFacts.glob CrashFilesFacts.v.beautified CrashFilesFacts.required_vo: CrashFilesFacts.v CrashFiles.vo
+CrashFilesFacts.vio: CrashFilesFacts.v CrashFiles.vio
+CrashFilesFacts.vos CrashFilesFacts.vok CrashFilesFacts.required_vos: CrashFilesFacts.v CrashFiles.vos
 IteratorIncl.vo IteratorIncl.glob IteratorIncl.v.beautified IteratorIncl.required_vo: IteratorIncl.v Iterator.vo
 IteratorIncl.vio: IteratorIncl.v Iterator.vio
 IteratorIncl.vos IteratorIncl.vok IteratorIncl.required_vos: IteratorIncl.v Iterator.vos
@@ -181,6 +193,9 @@ TreeCycles.vos TreeCycles.vok TreeCycles.required_vos: TreeCycles.v Bytes.vos Se
 TreeCyclesFacts.vo TreeCyclesFacts.glob TreeCyclesFacts.v.beautified TreeCyclesFacts.required_vo: TreeCyclesFacts.v Bytes.vo BytesFacts.vo Segment.vo SegmentFacts.vo Stack.vo StackFacts.vo Collection.vo CollectionFacts.vo Store.vo StoreFacts.vo Tree.vo TreeColl.vo TreeFacts.vo TreeInv.vo TreeInvFacts.vo TreeCycles.vo FlatRun.vo TreeRun.vo
 TreeCyclesFacts.vio: TreeCyclesFacts.v Bytes.vio BytesFacts.vio Segment.vio SegmentFacts.vio Stack.vio StackFacts.vio Collection.vio CollectionFacts.vio Store.vio StoreFacts.vio Tree.vio TreeColl.vio TreeFacts.vio TreeInv.vio TreeInvFacts.vio TreeCycles.vio FlatRun.vio TreeRun.vio
 TreeCyclesFacts.vos TreeCyclesFacts.vok TreeCyclesFacts.required_vos: TreeCyclesFacts.v Bytes.vos BytesFacts.vos Segment.vos SegmentFacts.vos Stack.vos StackFacts.vos Collection.vos CollectionFacts.vos Store.vos StoreFacts.vos Tree.vos TreeColl.vos TreeFacts.vos TreeInv.vos TreeInvFacts.vos TreeCycles.vos FlatRun.vos TreeRun.vos
+TreeCyclesRun.vo TreeCyclesRun.glob TreeCyclesRun.v.beautified TreeCyclesRun.required_vo: TreeCyclesRun.v Tree.vo TreeColl.vo TreeRun.vo TreeInv.vo TreeCycles.vo TreeCyclesFacts.vo
+TreeCyclesRun.vio: TreeCyclesRun.v Tree.vio TreeColl.vio TreeRun.vio TreeInv.vio TreeCycles.vio TreeCyclesFacts.vio
+TreeCyclesRun.vos TreeCyclesRun.vok TreeCyclesRun.required_vos: TreeCyclesRun.v Tree.vos TreeColl.vos TreeRun.vos TreeInv.vos TreeCycles.vos TreeCyclesFacts.vos
 StoreOps.vo StoreOps.glob StoreOps.v.beautified StoreOps.required_vo: StoreOps.v 
 StoreOps.vio: StoreOps.v 
 StoreOps.vos StoreOps.vok StoreOps.required_vos: StoreOps.v 
